@@ -330,7 +330,7 @@ Proof. unfold starts_with, exact_body. now destruct (strip_prefix m s). Qed.
 Definition agrees (r : option val) (x : expect) : Prop :=
   match r with
   | Some c' => x = Exactly c' \/ x = Anything
-  | None => x = Anything
+  | None => x = Anything \/ x = MustFail
   end.
 
 Lemma vpass_spec E p c : agrees (vpass E p c) (spec_pass E p (Exactly c)).
@@ -378,6 +378,9 @@ Fixpoint vfold (E : env) (ps : list pass) (c : val) : option val :=
 Lemma spec_fold_anything E ps : spec_fold E ps Anything = Anything.
 Proof. induction ps as [|p r IH]; cbn [spec_fold spec_pass]; [reflexivity|exact IH]. Qed.
 
+Lemma spec_fold_mustfail E ps : spec_fold E ps MustFail = MustFail.
+Proof. induction ps as [|p r IH]; cbn [spec_fold spec_pass]; [reflexivity|exact IH]. Qed.
+
 Lemma vfold_spec E ps : forall c, agrees (vfold E ps c) (spec_fold E ps (Exactly c)).
 Proof.
   induction ps as [|p r IH]; intro c; cbn [vfold spec_fold].
@@ -386,7 +389,9 @@ Proof.
     + destruct H as [-> | ->].
       * apply IH.
       * rewrite spec_fold_anything. destruct (vfold E r c'); cbn; auto.
-    + rewrite H, spec_fold_anything. reflexivity.
+    + destruct H as [-> | ->].
+      * rewrite spec_fold_anything. now left.
+      * rewrite spec_fold_mustfail. now right.
 Qed.
 
 (* the default list of passes read pass by pass = the one-pass reading *)
@@ -664,7 +669,7 @@ Proof.
   intro Hns. unfold arg_ok, open_arg. rewrite (expected_fold E ps a Hns).
   pose proof (vfold_spec E ps a) as H. destruct (vfold E ps a) as [o|]; cbn [agrees] in H.
   - destruct H as [-> | ->]; [apply val_eqb_refl|reflexivity].
-  - now rewrite H.
+  - destruct H as [-> | ->]; reflexivity.
 Qed.
 
 Lemma args_fold_ok E ps l :
